@@ -9,7 +9,7 @@ const NAMES: &[&str] = &["a", "b", "user", "id", "posts", "Query", "User", "Node
 const KEYWORD_NAMES: &[&str] = &[
     "type", "query", "mutation", "subscription", "fragment", "input", "extend", "schema", "implements", "repeatable", "from", "import", "scalar", "union", "enum", "interface", "directive", "onward", "trueish", "nullable", "on",
 ];
-const HOSTILE_CHARS: &[&str] = &["\"", "\\", "`", "${", "*/", "\"\"\"", "\n", "  ", "\t", "é", "日本語", "𝒳", "😀", "/", "#", "'", "{", "}", "$", "\u{7f}", "\u{0}", "\u{1}", "\u{feff}", "\\n", "\\u0041"];
+const HOSTILE_CHARS: &[&str] = &["\"", "\\", "`", "${", "*/", "\"\"\"", "\n", "  ", "\t", "é", "日本語", "𝒳", "😀", "/", "#", "'", "{", "}", "$", "\u{7f}", "\u{0}", "\u{1}", "\u{feff}", "\\n", "\\u0041", "\u{8}", "\u{c}", "\r", "\u{b}", "\u{2028}"];
 const WORDS: &[&str] = &["The", "quick", "brown", "fox", "id", "of", "user", "deprecated", "use", "instead", "x", ""];
 
 pub fn gen_name(rng: &mut Rng) -> String {
